@@ -14,16 +14,16 @@ SIMTB = TB
 def sim(pid, proved, notproved, tie, tech):
     reg(pid, tech, "proof + correspondence. PROVED in Coq (every world: any fault plan, latency plan, child behaviour; Print Assumptions closed): %s NOT PROVED, decided by the tie on the implementation only: %s TIE: %s Monitors are evaluated on every implementation run; a model/implementation difference in the property's projection or a broken proof obligation is a VIOLATION (with the failing scenario when a monitor fails, else no-failing-input-found)." % (proved, notproved, tie))
 
-sim("C01", "parse_status decodes every exit code and terminating signal; once a status is cached wait/terminate/kill/stop return it with no system call, event or time; the system-call footprint of wait.",
-    "'never early' and 'reaped exactly once' as statements about the world's process table over whole histories.",
+sim("C01", "parse_status decodes every exit code and terminating signal; once a status is cached wait/terminate/kill/stop return it with no system call, event or time; the system-call footprint of wait; EXACT AND NEVER EARLY FOR EVERY WELL-FORMED WORLD (C01_wait_exact): a wait on a running handle returns r >= 0 only by reaping the handle's own child, which at that moment of the call was a zombie with wait status st (so never while it runs), r = decode(st) is cached, the reap is the event logged at that moment and the child's record afterwards is the same record marked reaped (no zombie remains).",
+    "'reaped exactly once' over whole histories of several calls (follows from C01_wait_exact + C01_wait_stable for histories made of waits, not stated as one theorem over arbitrary histories incl. stop/destroy); that the world's wait statuses are Linux's.",
     "endings (exit codes, terminating signals, SIGTERM handlers) x call-order templates, EINTR/ENOMEM injected at every call inside wait/stop/destroy, random histories.",
     "Coq theorems on the library model + model/implementation correspondence in a simulated world + trace monitor")
 sim("C02", "the world's pipe is a FIFO of byte positions (take = prefix, exactly min(n, available), append at the back); read()==0 with positive size is the only result mapped to the closed-stream error; that error closes the stream for good (sticky), any other result leaves the handle untouched; same for write/EPIPE.",
     "end-to-end delivery 'every byte the child writes is returned once, in order' over whole schedules (needs the scheduler invariants of the world).",
     "payload sizes straddling 4096/65536/1 MiB x buffer sizes incl. 0 x blocking/nonblocking x stream layouts; stdin writes; start-up input; EINTR/EIO at every call of reads/writes; byte content checked at the stub boundary.",
     "Coq theorems (pipe FIFO, stream closure) + correspondence + offset-continuity monitor")
-sim("C03", "environment = parent entries then extra entries in order (strv_concat); relative-path test; every store of path_prepend_cwd is inside its allocation for every cwd/path length and growth step, and the growth loop terminates.",
-    "that the exec image's argv/env/cwd/program equal the request (goes through fork and exec in the world).",
+sim("C03", "environment = parent entries then extra entries in order (strv_concat); relative-path test; every store of path_prepend_cwd is inside its allocation for every cwd/path length and growth step, and the growth loop terminates; THE CHILD SIDE (C03_child_image): in any fault-free well-formed world, if the forked child reaches a successful exec, the image's argv is the requested argv, its environment exactly the list handed to the child side (which C03_env_order shows is parent entries then extra entries, or extra only), its working directory the requested one resolved against the parent's (or the parent's).",
+    "the parent-side composition (that process_start hands exactly strv_concat/path_prepend_cwd's results to the child side) is decided by the tie; program lookup along PATH is the world's.",
     "random byte strings for argv/env, cwd lengths around multiples of 4096, program forms (bare, absolute, relative, ./), wd none/absolute/relative; heap canaries on every allocation of the real code.",
     "Coq theorems (buffer arithmetic, environment order) + correspondence + exec-image monitor")
 sim("C04", "handle state as a function of start's result (negative: not started, all fields invalid; positive: running; zero: in child), the exit block, rejection of a started handle, no effect at all for invalid options on a fresh handle.",
@@ -34,8 +34,8 @@ sim("C05", "the regenerated ownership table of redirect_destroy is the documente
     "balance of whole histories (descriptor table, heap ledger, children) under every fault plan.",
     "single-fault enumeration + pairs + random histories with sprinkled faults + closed-FILE streams, all ending in destroy; close-discipline automaton on the parent's trace.",
     "Coq theorems (ownership table, close footprints) + fault enumeration + ledger monitors")
-sim("C06", "every kill/waitpid made by terminate/kill/wait/stop/destroy names the pid stored in the handle, signals are SIGTERM/SIGKILL, none once a status is cached, rejection before start.",
-    "that the pid stored by a successful start is the positive pid of the forked child.",
+sim("C06", "every kill/waitpid made by terminate/kill/wait/stop/destroy names the pid stored in the handle, signals are SIGTERM/SIGKILL, none once a status is cached, rejection before start; a successful reap happens only while the handle's child is unreaped: at the moment the waitpid event is logged that pid is a zombie in the world (C06_reap_only_unreaped, every well-formed world).",
+    "that the pid stored by a successful start is the positive pid of the forked child; that kill is only sent while the child is unreaped as a world-level statement (the handle-level one, none once a status is cached, is proved).",
     "start fault enumeration (incl. allocation failures) followed by terminate/kill/wait/stop/destroy; random histories.",
     "Coq footprint theorems + correspondence + target monitor")
 sim("C07", "the loop equations (act, wait(timeout), stop on anything but a time-out; noop keeps the previous result), the regenerated action table, a non-negative result is always the cached status of a reaped child, all-noop = wait(deadline)+terminate(infinite), footprint.",
@@ -58,8 +58,8 @@ sim("C11", "THE CHILD SIDE FOR EVERY PARENT TABLE (C11_child_image_descriptors):
     "injected faults inside the child (a failed F_GETFD makes the code skip a close); that the parent-side invariants assumed of the table at fork (error pipes close-on-exec, all descriptors below the limit) hold — both decided by the tie's families.",
     "random descriptor tables incl. limit-1/limit-2/dense, limits 8..256, flags random, sibling handles, limit raised between starts, huge/infinite limits.",
     "Coq theorem over the whole child side of fork for all descriptor tables (state-aware Hoare logic over the world model) + random-table correspondence + image-descriptor monitor")
-sim("C12", "the regenerated reset-loop bounds cover signals 1..31, EINVAL tolerated only, the block-all set, exec keeps only ignored dispositions (world).",
-    "that every return path of start restores mask/dispositions/cwd/environment (parent side of process_fork under faults).",
+sim("C12", "the regenerated reset-loop bounds cover signals 1..31, EINVAL tolerated only, the block-all set, exec keeps only ignored dispositions (world); THE CHILD SIDE (C12_child_clean): for every initial mask and disposition table, in any fault-free well-formed world, if the forked child reaches a successful exec the image starts with an empty signal mask and no non-default disposition for any signal 1..31 other than SIGKILL/SIGSTOP.",
+    "that every return path of start restores the parent's mask/dispositions/cwd/environment (parent side of process_fork under faults) — decided by the tie.",
     "4 masks x 3 disposition tables x single-fault enumeration of 17 start scenarios.",
     "Coq theorems (signal tables) + masks x faults correspondence + caller-state monitor")
 sim("C14", "the life-cycle automaton: new; start transitions by sign of result and rejection of started handles; wait/stop cache a status only on success; not-started and in-child rejections with untouched world; closed-stream errors; idempotent close; bad arguments; exited handles inert.",
